@@ -440,11 +440,12 @@ public:
         using co_awaiter<subscriber>::co_awaiter;
 
         operator bool() {
+            //wait() would finish with co_awaiter's own await_resume(), which converts the
+            //previously stored value to bool and never fetches the new one
             if (!this->await_ready()) {
-                return this->wait();
-            } else {
-                return this->await_resume();
+                this->sync();
             }
+            return this->await_resume();
         }
         bool await_resume() {
             return this->_owner.check_next();
